@@ -45,6 +45,15 @@ def replay(chk: Check, cases, tier):
             arr = geom.make_array(kind, els, aff, subtype)
             desc = repr([geom.to_py(kind, e, aff) if not integer else geom._to_int(geom.to_py(kind, e, aff)) for e in els])
             n = len(els)
+            if n >= 3 and nb % 3 == 0:
+                big, bpos = M.tiled(arr, 40001)
+                chk.count(len(big))
+                ob, osml = big.oriented(), arr.oriented()
+                if len(ob) != len(big) or not M.same_array(np.asarray(ob.area, dtype="float64"), np.asarray(osml.area, dtype="float64")[bpos]) or \
+                        not M.same_array(np.asarray(ob.isna()), np.asarray(osml.isna())[bpos]) or \
+                        not M.same_array(np.asarray(ob.bounds, dtype="float64"), np.asarray(osml.bounds, dtype="float64").reshape(-1, 4)[bpos]):
+                    fail(chk, kind, f"tiled to {len(big)} elements", subtype, aff, desc, "oriented() of the large array (area, missing mask, bounds) vs the tiled small one",
+                         "differs", "equal", "tiled")
             ders = list(M.derivations(arr, n, rng))
             if n >= 2:
                 # histories in which a piece of the array has ALREADY been oriented before it is combined with raw data
